@@ -15,6 +15,48 @@ def has_try(node):
         any(n.get("k") == "ret" for n in walk(node))
 
 
+def _evaluated_before(root, a, b):
+    """is expression `a` completely evaluated before expression `b` starts?  Decided on the HIR tree: find the lowest common ancestor and
+    compare the evaluation order of the two children that contain a and b (statements in order; receiver before arguments; arguments left to
+    right; `let` initialiser before later statements).  Conservative: unknown shapes answer False."""
+    def path_to(node, target, acc):
+        if node is target:
+            return acc
+        if isinstance(node, dict):
+            for key, v in node.items():
+                if key in ("pat", "params", "res", "v", "ty"):
+                    continue
+                r = path_to(v, target, acc + [(node, key, None)])
+                if r is not None:
+                    return r
+        elif isinstance(node, list):
+            for i, v in enumerate(node):
+                r = path_to(v, target, acc + [(node, None, i)])
+                if r is not None:
+                    return r
+        return None
+    pa, pb = path_to(root, a, []), path_to(root, b, [])
+    if pa is None or pb is None:
+        return False
+    i = 0
+    while i < len(pa) and i < len(pb) and pa[i][0] is pb[i][0] and pa[i][1:] == pb[i][1:]:
+        i += 1
+    if i >= len(pa) or i >= len(pb) or pa[i][0] is not pb[i][0]:
+        return False      # one contains the other
+    node, ka, ia = pa[i]
+    _, kb, ib = pb[i]
+    if isinstance(node, list):
+        return ia < ib
+    ORDER = {"block": ["stmts", "e"], "mcall": ["recv", "args"], "call": ["f", "args"], "bin": ["a", "b"], "assign": ["b", "a"],
+             "slet": ["init", "els"], "if": ["c", "t", "e"], "match": ["scrut", "arms"], "tup": ["es"], "struct": ["fields", "base"]}
+    seq = ORDER.get(node.get("k"))
+    if not seq or ka not in seq or kb not in seq:
+        return False
+    if node.get("k") == "if" and {ka, kb} == {"t", "e"}:
+        return False
+    return seq.index(ka) < seq.index(kb)
+
+
 def run(chk, facts, tier, only=None):
     c = facts.crate("candid")
 
@@ -219,6 +261,64 @@ def run(chk, facts, tier, only=None):
         want = {"original.decoding_quota": (True, "self.decoding_quota"), "original.skipping_quota": (True, "self.skipping_quota")}
         chk.expect(found == want, "compute_cost:original-minus-remaining",
                    f"compute_cost must return original quota minus remaining quota for both counters; found {found}")
+        cost_readers()
+        quota_errors_propagate()
+
+    def quota_errors_propagate():
+        """a quota error ends decoding: the Result of add_cost goes straight into `?` at every call site.  Routed through a combinator chain
+        it can be relabelled (e.g. map_err(Error::subtype)) and the opt recovery would then swallow it, so metered decoding would return
+        a different value instead of a quota error"""
+        from facts import op_place, term_callee
+        n = 0
+        for k, b in sorted(c.bodies.items()):
+            if not b.span["file"].endswith("candid/src/de.rs"):
+                continue
+            for bi, t, cal in b.call_sites():
+                if b.is_cleanup(bi) or not cal or not cal.endswith("Deserializer::<'de>::add_cost"):
+                    continue
+                n += 1
+                nxt = b.blocks[t["t"]]["t"] if t.get("t") is not None else None
+                ok = False
+                if nxt and nxt["k"] == "call":
+                    d, r = term_callee(nxt)
+                    a0 = op_place(nxt["args"][0]) if nxt.get("args") else None
+                    ok = (r or d or "").endswith("Try>::branch") and a0 is not None and a0["l"] == t["dest"]["l"]
+                chk.expect(ok, f"add_cost-propagated:{k.rsplit('::', 1)[-1]}@{sum(1 for x in range(bi) if (b.blocks[x]['t'].get('k') == 'call' and (term_callee(b.blocks[x]['t'])[1] or term_callee(b.blocks[x]['t'])[0] or '').endswith('add_cost')))}",
+                           f"{k}: the Result of add_cost is not propagated with `?` right away: a quota error could be converted into another error "
+                           f"kind (a Subtype error is recovered below opt), so decoding under a quota would return a different value instead of failing",
+                           where=f"{b.span['file']}:{t.get('ln')}", ok_detail="add_cost(..)?")
+        chk.floor("add_cost call sites in de.rs", n, 40)
+
+    def cost_readers():
+        # the reported cost must include the work of done(), which skips (and charges for) the surplus arguments
+        n = 0
+        crates = [c]
+        try:
+            crates.append(facts.crate("witness"))
+        except Exception:
+            pass
+        for cr in crates:
+            for k, hh in sorted(cr.hir.items()):
+                order = {}
+                cc_calls, dn_calls = [], []
+                for i, x in enumerate(walk(hh["body"])):
+                    order[id(x)] = i
+                    if x.get("k") == "mcall" and x["m"] == "compute_cost" and "DecoderConfig" in (x.get("recv_ty") or x.get("callee") or ""):
+                        cc_calls.append(x)
+                    if x.get("k") == "mcall" and x["m"] == "done" and "IDLDeserialize" in (x.get("recv_ty") or x.get("callee") or ""):
+                        dn_calls.append(x)
+                if not cc_calls or "compute_cost" in k:
+                    continue
+                n += 1
+                chk.analysed(k)
+                # HIR pre-order visits a method call's receiver and arguments after the call node itself; compare the positions of the
+                # innermost nodes instead: done() must be complete before compute_cost's receiver is evaluated
+                bad = [x for x in cc_calls if not dn_calls or not all(_evaluated_before(hh["body"], d, x) for d in dn_calls)]
+                chk.expect(not bad, f"cost-reader:{k.rsplit('::', 1)[-1]}:after-done",
+                           f"{k} reads the cost (compute_cost) before IDLDeserialize::done() has run: done() skips the surplus arguments and charges "
+                           f"the skipping quota for them, so the reported cost misses that work and a quota sized from it rejects the same message",
+                           where=f"{hh['span']['file']}:{bad[0].get('ln')}" if bad else None, ok_detail="done() is evaluated before compute_cost")
+        chk.floor("functions that report a decoding cost", n, 1)
 
     for rid, desc, fn in (("C07.R1", "every visitor call / element dispatch is charged on every path", r1),
                           ("C07.R2", "fast paths are armed only after a bulk charge of len * c (c >= 1)", r2),
